@@ -21,7 +21,8 @@ import (
 )
 
 type c16Op struct {
-	Op    string   `json:"op"` // connect | sub | unsub | drop | admin | extput | pub
+	Op    string   `json:"op"` // connect | sub | unsub | drop | admin | extput | pub | kaprobe
+	Ka    int      `json:"ka,omitempty"` // connect / kaprobe: keep-alive seconds
 	K     int      `json:"k"`  // connection label (connect defines it)
 	Cid   string   `json:"cid,omitempty"`
 	Clean bool     `json:"clean,omitempty"`
@@ -66,6 +67,7 @@ type c16Snap struct {
 }
 
 type c16Step struct {
+	DlMs    int64    `json:"dlms,omitempty"` // kaprobe: read deadline armed by the broker, ms from the moment it was set (-1 none)
 	Skip    bool     `json:"skip"`
 	NoSnap  bool     `json:"nosnap,omitempty"` // no quiescent state to observe here (steps forced into each other); the next snapshot covers it
 	Eof     bool     `json:"eof"`
@@ -105,6 +107,7 @@ type c16Conn struct {
 	label int
 	cli   *c15Cli
 	gone  bool // the broker side has ended (socket closed by us or by the broker)
+	dead  bool // the broker dropped it before the harness could even look it up
 	willX bool // its will makes the publish pipeline answer "disconnect": Client.close() then runs BEFORE the cleanup
 }
 
@@ -113,6 +116,10 @@ func c16Snapshot(env *c15Env, conns []*c16Conn) (sn c16Snap) {
 	b := env.b
 	byClient := map[*Client]int{}
 	for _, c := range conns {
+		if c.dead {
+			sn.Live = append(sn.Live, c16Live{K: c.label, Live: false})
+			continue
+		}
 		byClient[c.cli.client] = c.label
 		sn.Live = append(sn.Live, c16Live{K: c.label, Live: !c.cli.client.disconnected()})
 	}
@@ -210,7 +217,15 @@ func c16Run(in c16In) (obs c16Obs) {
 				break
 			}
 			env.will = op.Will
+			env.keepalive = uint16(op.Ka)
 			cli, code := env.dial(op.Cid, op.Clean, true)
+			if cli != nil && cli.client == nil {
+				// accepted (CONNACK) but gone before we could look: the history goes on without it
+				cli.closeSock()
+				env.open--
+				conns = append(conns, &c16Conn{label: op.K, cli: cli, gone: true, dead: true})
+				break
+			}
 			if cli == nil || cli.client == nil {
 				obs.Bad = append(obs.Bad, fmt.Sprintf("connect %d refused %d", op.K, code))
 				st.Skip = true
@@ -309,6 +324,16 @@ func c16Run(in c16In) (obs c16Obs) {
 				} else {
 					env.gate.open() // the delete holds the broker lock: a reconnect is serialised after it
 				}
+			}
+		case "kaprobe":
+			if racing > 0 {
+				st.Skip = true
+				break
+			}
+			dl, note := env.probeKeepalive(fmt.Sprintf("ka-probe-%d", len(obs.Steps)), op.Ka)
+			st.DlMs = dl
+			if note != "" && dl >= -1 {
+				obs.Bad = append(obs.Bad, "kaprobe: "+note)
 			}
 		case "extput":
 			// another broker instance on the same storage writes the persistent session of this id;
@@ -434,8 +459,15 @@ func c16Gen(r *vfRand, adv bool) c16In {
 		}
 		return &c15Will{Topic: r.PickStr("will/a", "a/b"), Payload: r.PickStr("P", "P", "D", "D", "X") + "will", Qos: r.Intn(2), Retain: r.Chance(1, 4)}
 	}
+	bigKa := func() int {
+		// only keep-alive values whose 1.5x deadline is hours away (the histories must not race a real timeout)
+		if r.Chance(1, 3) {
+			return r.PickInt(21845, 21846, 30000, 43690, 43691, 65535)
+		}
+		return 0
+	}
 	connect := func(cid string, clean bool) {
-		in.Ops = append(in.Ops, c16Op{Op: "connect", K: next, Cid: cid, Clean: clean, Will: will()})
+		in.Ops = append(in.Ops, c16Op{Op: "connect", K: next, Cid: cid, Clean: clean, Will: will(), Ka: bigKa()})
 		open = append(open, next)
 		cidOf[next] = cid
 		next++
@@ -624,6 +656,9 @@ func c16Gen(r *vfRand, adv bool) c16In {
 		}
 	}
 	in.Ops = append(in.Ops, c16Op{Op: "pub", Topic: "a/b"})
+	if r.Chance(1, 2) {
+		in.Ops = append(in.Ops, c16Op{Op: "kaprobe", Ka: r.PickInt(0, 1, 2, 3, 59, 60, 21845, 21846, 30000, 43690, 43691, 65535)})
+	}
 	return in
 }
 
